@@ -41,6 +41,10 @@ FEATURE_DEFAULTS = {
     "kind_attr_conflict": False,  # attribute words that say the opposite of the stream flags (dir without 0x10, empty file with 0x10)
     "startpos": False,          # kStartPos (0x18) file property, partially defined
     "dir_slash": False,         # directories stored as 'name/' (libarchive, Java writers)
+    "anti_zero": False,         # a kAnti vector with no bit set beside the empty-stream vector
+    "archive_props": False,     # an ArchiveProperties record in front of the streams
+    "empty_streams_info": False,  # archives without streams still carry '04 00'
+    "zstd_frames": False,       # ZStandard streams cut into several frames behind a skippable frame
 }
 
 REF_CHAINS = [
@@ -95,6 +99,10 @@ def gen_case(rng: random.Random, max_len=20000, force=None):
     f["kind_attr_conflict"] = maybe(0.12)
     f["startpos"] = maybe(0.08)
     f["dir_slash"] = maybe(0.15)
+    f["anti_zero"] = maybe(0.1)
+    f["archive_props"] = maybe(0.1)
+    f["empty_streams_info"] = maybe(0.3)
+    f["zstd_frames"] = maybe(0.5)
     if rng.random() < 0.1:
         f["pack_crc"] = "partial"
     if force:
@@ -256,7 +264,10 @@ def realise(case):
         parts = [ns // k + (1 if i < ns % k else 0) for i in range(k)]
     folders = []
     for i, cnt in enumerate(parts):
-        folders.append({"n": cnt, "chain": chains[i % len(chains)], "crc": f["crc"]})
+        ch_ = chains[i % len(chains)]
+        if f.get("zstd_frames"):
+            ch_ = [dict(c, frames=3) if c["m"] == "ZStandard" else c for c in ch_]
+        folders.append({"n": cnt, "chain": ch_, "crc": f["crc"]})
     if f["empty_folder"]:
         folders.insert(r.randint(0, len(folders)), {"n": 0, "chain": [{"m": "COPY"}], "crc": "none"})
     no_sub = bool(f.get("no_substreams")) and folders and all(fo["n"] == 1 for fo in folders)
@@ -278,5 +289,8 @@ def realise(case):
         "trailing": f["trailing"],
         "substreams": not no_sub,
         "startpos": bool(f.get("startpos")),
+        "anti_zero": bool(f.get("anti_zero")),
+        "archive_props": bool(f.get("archive_props")),
+        "empty_streams_info": bool(f.get("empty_streams_info")),
     }
     return members, layout
